@@ -175,8 +175,47 @@ def copt(v, f):
 def cbool(b):
     return "true" if b else "false"
 
+def scalar_well_formed(dhex):
+    """[keymat.k_d] is "the scalar d when present and well formed" (Auth/Prog.v): well formed is what SecretKey::from_slice
+    (elliptic-curve 0.13) accepts - 24 to 32 octets, read as a big-endian integer (shorter inputs are padded on the LEFT),
+    non-zero and below the group order; the model sees the 32-octet form"""
+    if dhex is None:
+        return None
+    d = bytes.fromhex(dhex)
+    if not 24 <= len(d) <= 32:
+        return None
+    v = int.from_bytes(d, "big")
+    if not 0 < v < N_ORD:
+        return None
+    return v.to_bytes(32, "big").hex()
+
+
 def c_key(k):
-    return "(Build_keymat %s %s %s %s %s)" % (cbool(k["es256"]), cbool(k["ec2"]), copt(k["d"], hb), hb(k["x"]), hb(k["y"]))
+    return "(Build_keymat %s %s %s %s %s)" % (cbool(k["es256"]), cbool(k["ec2"]), copt(scalar_well_formed(k["d"]), hb), hb(k["x"]), hb(k["y"]))
+
+
+# encodings of the private scalar a stored (imported, synced) COSE key may carry; the public point is always the true one
+SCALAR_SHAPES = ["full", "lead0-kept", "short-1", "short-2", "short-8", "too-short-23", "long-33", "zero", "order", "order-1", "empty"]
+
+def key_with_scalar_shape(rng, shape):
+    if shape in ("lead0-kept", "short-1"):
+        v = rng.randrange(1, 1 << 247) | (1 << 246)          # 31 significant octets
+    elif shape == "short-2":
+        v = rng.randrange(1, 1 << 239) | (1 << 238)
+    elif shape == "short-8":
+        v = rng.randrange(1, 1 << 191) | (1 << 190)          # 24 significant octets
+    elif shape == "too-short-23":
+        v = rng.randrange(1, 1 << 183) | (1 << 182)          # 23 significant octets
+    elif shape == "order-1":
+        v = N_ORD - 1
+    else:
+        v = rng.randrange(1 << 255, N_ORD)
+    x, y = pub_of(v)
+    enc = {"full": lambda: v.to_bytes(32, "big"), "lead0-kept": lambda: v.to_bytes(32, "big"), "short-1": lambda: v.to_bytes(31, "big"),
+           "short-2": lambda: v.to_bytes(30, "big"), "short-8": lambda: v.to_bytes(24, "big"), "too-short-23": lambda: v.to_bytes(23, "big"),
+           "long-33": lambda: b"\x00" + v.to_bytes(32, "big"), "zero": lambda: bytes(32), "order": lambda: N_ORD.to_bytes(32, "big"),
+           "order-1": lambda: v.to_bytes(32, "big"), "empty": lambda: b""}[shape]()
+    return {"es256": True, "ec2": True, "d": enc.hex(), "x": x.to_bytes(32, "big").hex(), "y": y.to_bytes(32, "big").hex()}
 
 def c_passkey(p):
     hm = "None" if p["hmac"] is None else "(Some (%s, %s))" % (hb(p["hmac"]["w"]), copt(p["hmac"]["wo"], hb))
@@ -790,6 +829,35 @@ def auth_op(rng, origin="https://www.example.com", rp_id="example.com", challeng
                     "challenge": (challenge if challenge is not None else bytes(rng.randrange(256) for _ in range(32))).hex(),
                     "allow": None if allow is None else [e.hex() if isinstance(e, bytes) else e for e in allow], "uv": uv, "ext": ext},
             "cd": cd or {"mode": "default"}}
+
+
+# members of the WebAuthn options the client does not act on (it never waits, never attests, has one authenticator): the
+# ceremony must be the same whatever they say; values as the JSON a relying party sends (an unknown string is ignored)
+IGNORED_MEMBERS = {
+    "attestation": [None, "none", "indirect", "direct", "enterprise", "something-new"],
+    "timeout": [None, 0, 1, 60000, 2**32 - 1],
+    "hints": [None, [], ["security-key"], ["client-device", "hybrid"], ["something-new"]],
+    "attestation_formats": [None, [], ["none"], ["packed"], ["tpm", "apple", "android-key"]],
+}
+
+def with_ignored(op, **members):
+    """the same operation with some of the ignored members set ("attachment" goes into the registration's selection)"""
+    op = json.loads(json.dumps(op))
+    for k, v in members.items():
+        if v is None:
+            continue
+        if k == "attachment":
+            if op["op"] == "register":
+                op["req"]["selection"] = dict(op["req"]["selection"] or {"rk": None, "require_rk": False, "uv": "preferred"}, attachment=v)
+        else:
+            op["req"][k] = v
+    return op
+
+def random_ignored(rng, op):
+    if rng.random() < 0.5:
+        return op
+    return with_ignored(op, attachment=rng.choice([None, "platform", "cross-platform"]),
+                        **{k: rng.choice(v) for k, v in IGNORED_MEMBERS.items() if rng.random() < 0.6})
 
 
 def wext(cred_props=None, prf=None, prf_hashed=None):
